@@ -29,6 +29,7 @@ import Apko.Generated.Resolver
 import Apko.Proofs.Lemmas.ResolverTop
 import Apko.Proofs.Lemmas.ResolverDriver
 import Apko.Proofs.Lemmas.ResolverFlags
+import Apko.Proofs.Lemmas.ResolverFuel
 
 namespace Apko.C02
 open Apko Apko.Resolver
@@ -517,5 +518,28 @@ and the set `{d-1, g}` is invalid (`d-1 → e`) -/
 def uE_sharedId := [mk 0 "d" "2" ["g"] [] [], mk 1 "g" "1" ["virt"] [] [], mk 0 "d" "1" ["e"] ["virt=1"] [], mk 3 "e" "1" [] [] []]
 theorem UniverseWF_needed : ¬ UniverseWF (cfgOf uE_sharedId) ∧ invalidWith uE_sharedId ["d"] [] = true := by
   set_option maxRecDepth 100000 in decide
+
+/-! ## the fuel is always sufficient -/
+
+/-- T `resolve_total`: the model never runs out of fuel (every universe, world, dq set, provider order): the
+by-name cycle guard bounds the depth of the walk by the number of packages, every pass of the dependency
+loop and of the world loop removes one entry.  So the `.ok` / `.err` theorems cover all behaviours. -/
+theorem resolve_total (c : Cfg) (w : List Text) (dq0 : List Nat) : resolve c w dq0 ≠ .outOfFuel := by
+  intro h
+  unfold resolve at h
+  split at h
+  · simp at h
+  · split at h
+    · simp at h
+    · next hwl => exact worldLoop_no_oof c _ _ _ _ (Nat.lt_succ_self _) hwl
+    · exact go_no_oof c _ _ _ _ _ h
+
+/-- T `resolve_ok_or_err_total`: `resolve_ok_or_err` without the third alternative -/
+theorem resolve_ok_or_err_total (c : Cfg) (w : List Text) (dq0 : List Nat) :
+    (∃ r, resolve c w dq0 = .ok r) ∨ resolve c w dq0 = .err := by
+  rcases resolve_ok_or_err c w dq0 with h | h | h
+  · exact Or.inl h
+  · exact Or.inr h
+  · exact absurd h (resolve_total c w dq0)
 
 end Apko.C02
